@@ -237,6 +237,7 @@ pub fn exec_traced<'a>(ctx: &'a mut Ctx, sc: &'a Value, plan: &Value, tag: &str)
     it.strict_format = false;
     let prelude = sc["prelude"].as_array().cloned().unwrap_or_default();
     it.run_steps(&prelude, 0);
+    it.deferred = true;
     let mut sub = Sub::default();
     if !it.out.viols.is_empty() {
         *sub.probes.entry("prelude_violations".into()).or_insert(0) += it.out.viols.len() as u64;
@@ -542,6 +543,9 @@ fn would_be(it: &mut Interp, st: &Value, pre: &Pre) -> (Option<String>, Option<O
 
 /// After a kill or an injected error: the victim key is exactly old or exactly new per the simulator's decoder.
 fn settle_victim(it: &mut Interp, st: &Value, pre: &Pre, sub: &mut Sub, how: &str) {
+    if it.lenient {
+        return; // no model is maintained in such runs
+    }
     let opname = st["op"].as_str().unwrap_or("?").to_string();
     let (key, newv) = would_be(it, st, pre);
     let deletion = matches!(opname.as_str(), "remove_hash" | "clear") || (opname == "remove_opts" && st["fully"].as_bool() == Some(true));
@@ -716,6 +720,7 @@ pub fn run_plan(ctx: &mut Ctx, sc: &Value, plan: &Value, tag: &str) -> Sub {
         ex.it.allow_tmp_leftovers = true;
     }
     take_viols(&mut ex.it, &mut ex.sub);
+    ex.it.deferred = false;
     // post phase: fresh fault-free processes (the persistent workers) audit, continue, retry
     let post = sc["post"].as_array().cloned().unwrap_or_default();
     let n0 = ex.it.out.viols.len();
